@@ -316,14 +316,30 @@ fn main() {
             observe_f64(&mut em, "glue_collect_from_iter", &by_glue);
             let by_glue_t: Float64Chunked = <Float64Chunked as Vec1<Option<f64>>>::collect_from_trusted(xo.clone().into_iter());
             observe_f64(&mut em, "glue_collect_from_trusted", &by_glue_t);
-            // the staging buffer: written by index in reverse order (a slot left unwritten stays null), then collected
-            { let mut u = <Float64Chunked as Vec1<Option<f64>>>::uninit(len);
-              let skip = if len > 0 && rng.chance(1, 3) { Some(rng.below(len)) } else { None };
-              for i in (0..len).rev() { if Some(i) != skip { unsafe { UninitVec::uset(&mut u, i, xo[i]) } } }
-              let ca: Float64Chunked = unsafe { u.assume_init() };
-              let mut want = xo.clone(); if let Some(k) = skip { want[k] = None }
-              assert_eq!(layout_f64(&ca).concat(), want, "staging buffer");
-              observe_f64(&mut em, "glue_uninit_uset", &ca); }
+            // the staging buffer of a Polars output (model: pstage of Model/PolarsOut.v, interpreter run_pstage): random
+            // stores — slots left unwritten (stay null), slots written twice (last store wins), any order — made through
+            // UninitVec::uset and through UninitRefMut::uset on the borrowed buffer, then assume_init
+            {
+                let nw = if len == 0 { 0 } else { rng.below(2 * len + 1) };
+                let writes: Vec<(usize, Option<f64>)> = (0..nw).map(|_| (rng.below(len),
+                    if rng.chance(1, 4) { None } else { Some(rng.range(-12, 12) as f64 / 4.0) })).collect();
+                let distinct = { let mut d: Vec<usize> = writes.iter().map(|w| w.0).collect(); d.sort(); d.dedup(); d.len() };
+                let term = format!("(run_pstage {} {})", vh::coq_nat(len),
+                    coq_list(&writes, |w| format!("({}, {})", vh::coq_nat(w.0), coq_opt(&w.1, |v| coq_f64(*v)))));
+                let tags = format!("part=access be=pl_stage how=uset len={} writes={} cover={}{}", len, nw.min(20),
+                    if distinct == len { "all" } else { "partial" }, if len == 0 { " nt=0" } else { "" });
+                em.case("exact", &tags, &format!("access be=pl_stage len={} stores={:?}", len, writes), || term.clone(), || {
+                    let mut u = <Float64Chunked as Vec1<Option<f64>>>::uninit(len);
+                    assert_eq!(GetLen::len(&u), len);
+                    for (k, (i, v)) in writes.iter().enumerate() {
+                        if k % 2 == 0 { unsafe { UninitVec::uset(&mut u, *i, *v) } }
+                        else { let mut r = <Float64Chunked as Vec1<Option<f64>>>::uninit_ref_mut(&mut u); unsafe { UninitRefMut::uset(&mut r, *i, *v) } }
+                    }
+                    let ca: Float64Chunked = unsafe { u.assume_init() };
+                    observe!(&ca, ocell, |s: Float64Chunked| s.titer().collect::<Vec<Option<f64>>>(),
+                             |v: &Float64Chunked| v.try_as_slice().map(|s| s.to_vec()))
+                });
+            }
             // the other element types
             let xi: Vec<Option<i64>> = xo.iter().map(|x| x.map(|v| (v * 4.0) as i64)).collect();
             let ichunks = split(&xi, &parts);
